@@ -27,6 +27,8 @@ import (
 type c03Script struct {
 	Writes      []int `json:"writes"`        // sizes of successive writes
 	WaitPeerFIN int   `json:"wait_peer_fin"` // before write index k (>=0) wait for the peer's EOF; -1: never wait
+	PauseAt     int   `json:"pause_at"`      // before write index k (== len(Writes): before the FIN) stay quiet for PauseS simulated seconds; -1: never
+	PauseS      int   `json:"pause_s"`
 }
 
 type c03Case struct {
@@ -44,6 +46,7 @@ type c03Case struct {
 	WRand    int       `json:"w_rand"`
 	Clients  int       `json:"clients"`
 	Listener string    `json:"listener"` // plain | tls | ratelimit
+	ReadTO   int       `json:"read_timeout_s"` // HTTPProxyConfig.ReadTimeout (0 = shipped default: none)
 }
 
 func genC03Script(t *tape.Tape, tier string) c03Script {
@@ -72,6 +75,7 @@ func genC03Script(t *tape.Tape, tier string) c03Script {
 		s.Writes = append(s.Writes, sz)
 	}
 	s.WaitPeerFIN = -1
+	s.PauseAt = -1
 	if k > 0 && t.Chance(1, 4) {
 		s.WaitPeerFIN = t.Intn(k + 1)
 	}
@@ -99,6 +103,22 @@ func genC03(t *tape.Tape, tier string) any {
 	if t.Chance(1, 6) {
 		c.Fault = []string{"client-rst", "target-rst"}[t.Intn(2)]
 		c.FaultAt = t.Intn(8)
+	}
+	if c.Fault == "" && t.Chance(1, 5) {
+		// a quiet period in the middle of a healthy tunnel: one endpoint stays silent for a while, the other one
+		// keeps its own direction open until it has seen the pauser's FIN (so the documented 1-minute grace period
+		// after a direction has ended never runs concurrently with the pause)
+		x, y := &c.Client, &c.Target
+		if t.Chance(1, 2) {
+			x, y = y, x
+		}
+		x.PauseAt = t.Intn(len(x.Writes) + 1)
+		x.PauseS = []int{20, 59, 61, 119, 3599, 3601, 7300}[t.Intn(7)]
+		x.WaitPeerFIN = -1
+		y.WaitPeerFIN = len(y.Writes)
+		if t.Chance(1, 4) {
+			c.ReadTO = []int{30, 60, 600}[t.Intn(3)]
+		}
 	}
 	return c
 }
@@ -130,6 +150,7 @@ type c03Endpoint struct {
 	done     chan struct{}
 	faultAt  int // abort before write index faultAt (-1: none)
 	aborted  bool
+	paused   bool
 }
 
 func (e *c03Endpoint) run() {
@@ -218,6 +239,10 @@ func (e *c03Endpoint) run() {
 		if e.script.WaitPeerFIN == i {
 			<-e.eofCh
 		}
+		if e.script.PauseAt == i && e.script.PauseS > 0 {
+			time.Sleep(time.Duration(e.script.PauseS) * time.Second)
+			e.paused = true
+		}
 		n, err := e.conn.Write(streamBytes(e.sendID, off, sz))
 		off += n
 		if err != nil {
@@ -233,6 +258,10 @@ func (e *c03Endpoint) run() {
 	if !e.aborted && e.writeErr == nil {
 		if e.script.WaitPeerFIN == len(e.script.Writes) {
 			<-e.eofCh
+		}
+		if e.script.PauseAt == len(e.script.Writes) && e.script.PauseS > 0 {
+			time.Sleep(time.Duration(e.script.PauseS) * time.Second)
+			e.paused = true
 		}
 		if cw, ok := e.conn.(interface{ CloseWrite() error }); ok {
 			cw.CloseWrite()
@@ -266,6 +295,9 @@ func runC03(env *core.Env, ci any) {
 	env.Sched.Knobs.WOne = c.WOne
 	env.Sched.Knobs.WRand = c.WRand
 	env.Sched.Knobs.MaxSteps = 400000
+	if c.Client.PauseAt >= 0 || c.Target.PauseAt >= 0 {
+		env.Sched.Knobs.Horizon = 6 * time.Hour
+	}
 	sut.Install(env)
 
 	ca := simtls.NewCA("verifsim upstream CA")
@@ -388,6 +420,9 @@ func runC03(env *core.Env, ci any) {
 		},
 		Config: func(cfg *forwarder.HTTPProxyConfig) {
 			cfg.ProxyLocalhost = forwarder.AllowProxyLocalhost
+			if c.ReadTO > 0 {
+				cfg.ReadTimeout = time.Duration(c.ReadTO) * time.Second
+			}
 			switch c.Listener {
 			case "tls":
 				cp, kp := simtls.PEMPair(ca.ValidLeaf("proxy.example", ipSUT))
@@ -545,6 +580,9 @@ func runC03(env *core.Env, ci any) {
 		}
 		if t.client.script.WaitPeerFIN >= 0 || t.target.script.WaitPeerFIN >= 0 {
 			env.Probe("data_after_peer_fin")
+		}
+		if t.client.paused || t.target.paused {
+			env.Probe("quiet_period_inside_tunnel")
 		}
 	}
 	if fault {
@@ -760,7 +798,7 @@ func init() {
 		},
 		Real:        append([]string{"internal/martian tunnel(), bicopy, copier, drainBuffer, asCloseWriter (copy.go, close.go)", "dialvia HTTP/HTTPS/SOCKS5 dialers", "golang.org/x/net/proxy SOCKS5 client"}, realForwarder...),
 		Stub:        stubCommon,
-		Rule:        "cases drawn from the tape: route x link capacity (2 KiB..4 MiB) x per-endpoint write scripts (sizes around 4 KiB/32 KiB, up to ~1 MiB) x coalescing of head/reply with payload x half-close order x 1-3 concurrent tunnels x optional RST fault; schedule = seeded segmentation and interleaving of all links. Non-trivial = payload bytes flowed and no setup failure.",
-		Assumptions: []string{"simulated time is not advanced while tunnels are healthy, so the documented 1-minute grace period after the first direction ends never cuts a still-flowing direction"},
+		Rule:        "cases drawn from the tape: route x link capacity (2 KiB..4 MiB) x per-endpoint write scripts (sizes around 4 KiB/32 KiB, up to ~1 MiB) x coalescing of head/reply with payload x half-close order x 1-3 concurrent tunnels x optional RST fault x optional quiet period of 20 s .. 2 h in the middle of a healthy tunnel (with and without HTTPProxyConfig.ReadTimeout); schedule = seeded segmentation and interleaving of all links. Non-trivial = payload bytes flowed and no setup failure.",
+		Assumptions: []string{"quiet periods (20 s .. 2 h of simulated time) are placed only while both directions are still open: the endpoint that is not pausing keeps its direction open until it has seen the pauser's FIN, so the documented 1-minute grace period after the first direction ends never cuts a still-flowing direction"},
 	})
 }
